@@ -502,25 +502,14 @@ func c15R3(p *Prog, r *Report) {
 	// NewPipe wiring
 	np := p.Func("netio", "", "NewPipe")
 	info := np.Info()
-	var lits []*ast.CompositeLit
-	ast.Inspect(np.Body, func(n ast.Node) bool {
-		if cl, ok := n.(*ast.CompositeLit); ok {
-			if tv, ok := info.Types[cl]; ok && namedTypeName(tv.Type) == "PipeConn" {
-				lits = append(lits, cl)
-			}
-		}
-		return true
-	})
+	// the two ends, however they are put together (literals or new(PipeConn) plus assignments)
+	lits := builtValues(np, "PipeConn")
 	if len(lits) != 2 {
-		r.Fail(rule, "netio.NewPipe:two-ends", p.posStr(np.Body.Pos()), fmt.Sprintf("expected two PipeConn literals, found %d", len(lits)))
+		r.Fail(rule, "netio.NewPipe:two-ends", p.posStr(np.Body.Pos()), fmt.Sprintf("expected two PipeConn values being built, found %d", len(lits)))
 	} else {
-		field := func(cl *ast.CompositeLit, name string) types.Object {
-			for _, el := range cl.Elts {
-				if kv, ok := el.(*ast.KeyValueExpr); ok {
-					if id, ok := kv.Key.(*ast.Ident); ok && id.Name == name {
-						return objOf(info, kv.Value)
-					}
-				}
+		field := func(cl *builtValue, name string) types.Object {
+			if v, ok := cl.Fields[name]; ok {
+				return objOf(info, v)
 			}
 			return nil
 		}
@@ -530,7 +519,7 @@ func c15R3(p *Prog, r *Report) {
 			x1, y1 := field(a, pr[0]), field(b, pr[1])
 			x2, y2 := field(b, pr[0]), field(a, pr[1])
 			ok := x1 != nil && x1 == y1 && x2 != nil && x2 == y2 && x1 != x2
-			r.Check(ok, rule, "netio.NewPipe:wiring:"+pr[0]+"~"+pr[1], p.posStr(a.Pos()), "a."+pr[0]+" == b."+pr[1]+" and b."+pr[0]+" == a."+pr[1]+", distinct objects per direction", "the two ends are not cross-wired on "+pr[0]+"/"+pr[1]+": data, counts, close signals or errors of one direction reach the wrong side")
+			r.Check(ok, rule, "netio.NewPipe:wiring:"+pr[0]+"~"+pr[1], p.posStr(a.Pos), "a."+pr[0]+" == b."+pr[1]+" and b."+pr[0]+" == a."+pr[1]+", distinct objects per direction", "the two ends are not cross-wired on "+pr[0]+"/"+pr[1]+": data, counts, close signals or errors of one direction reach the wrong side")
 		}
 		// done channel ↔ its close function: closeDoneK closes doneK
 		for _, cl := range lits {
@@ -552,7 +541,7 @@ func c15R3(p *Prog, r *Report) {
 					}
 				}
 			}
-			r.Check(good, rule, "netio.NewPipe:close-func-closes-own-done:"+fmt.Sprint(p.posStr(cl.Pos())), p.posStr(cl.Pos()), "closeLocalDone is a sync.OnceFunc closing this end's localDone", "closeLocalDone is not a once-only close of this end's localDone (double close panics; wrong channel wakes the wrong side)")
+			r.Check(good, rule, "netio.NewPipe:close-func-closes-own-done:"+fmt.Sprint(p.posStr(cl.Pos)), p.posStr(cl.Pos), "closeLocalDone is a sync.OnceFunc closing this end's localDone", "closeLocalDone is not a once-only close of this end's localDone (double close panics; wrong channel wakes the wrong side)")
 		}
 		// channels unbuffered
 		for _, v := range np.G.V {
